@@ -3,12 +3,16 @@
 package main
 
 import (
+	"bufio"
+	"encoding/json"
 	"flag"
 	"fmt"
 	"os"
 	"path/filepath"
 	"runtime/debug"
+	"sort"
 	"strconv"
+	"strings"
 
 	"lkcheck/ir"
 	"lkcheck/props"
@@ -23,6 +27,12 @@ func main() {
 	dump := flag.String("dump", "", "debug: dump facts/calls of function pkg:Name (e.g. consensus:ConsensusState.enterPrecommit)")
 	overlay := flag.String("overlay", "", "self-test: file=replacement pairs (path=path,...)")
 	noEvidence := flag.Bool("list", false, "print all obligations")
+	variantFile := flag.String("variant-file", "", "self-test: JSON array of replacement variants")
+	variantIdx := flag.Int("variant-index", -1, "self-test: which variant of -variant-file to run")
+	variantName := flag.String("variant-name", "", "self-test: name of an overlay (patch) variant")
+	expect := flag.String("expect", "", "self-test: obligation-key globs (|| separated) one of which must newly fail; empty = any new failure")
+	selfOut := flag.String("selftest-out", "", "self-test: append the result of this variant (JSON line) to this file")
+	selfIn := flag.String("selftest-in", "", "thorough: merge self-test results from this file into the evidence")
 	flag.Parse()
 
 	seed := 0
@@ -46,6 +56,91 @@ func main() {
 			}
 		}
 	}
+	// ---- self-test variant mode: never writes evidence, never fails the run ----
+	if *variantFile != "" || *variantName != "" {
+		res := report.SelftestResult{Variant: *variantName, Expected: *expect}
+		if *variantFile != "" {
+			type edit struct{ Old, New string }
+			var vs []struct {
+				Name, File, Old, New string
+				Edits                []edit
+				Expect               []string
+			}
+			b, err := os.ReadFile(*variantFile)
+			if err == nil {
+				err = json.Unmarshal(b, &vs)
+			}
+			if err != nil || *variantIdx < 0 || *variantIdx >= len(vs) {
+				fmt.Fprintln(os.Stderr, "lkcheck: bad variant file/index:", err)
+				os.Exit(2)
+			}
+			v := vs[*variantIdx]
+			res.Variant, res.Expected = v.Name, strings.Join(v.Expect, " || ")
+			src, err := os.ReadFile(filepath.Join(*repo, v.File))
+			edits := v.Edits
+			if v.Old != "" {
+				edits = append(edits, edit{v.Old, v.New})
+			}
+			text := string(src)
+			for _, e := range edits {
+				if err != nil || strings.Count(text, e.Old) != 1 {
+					res.Status = "stale"
+					res.Note = fmt.Sprintf("the text this variant replaces occurs %d times in %s on this tree", strings.Count(text, e.Old), v.File)
+					emitSelftest(res, *selfOut)
+					return
+				}
+				text = strings.Replace(text, e.Old, e.New, 1)
+			}
+			cfg.Overlay = map[string][]byte{filepath.Join(*repo, v.File): []byte(text)}
+		}
+		p, err := ir.Load(cfg)
+		if err != nil {
+			res.Status = "nocompile"
+			res.Note = short(err.Error(), 300)
+			emitSelftest(res, *selfOut)
+			return
+		}
+		fn := props.Registry[*prop]
+		if fn == nil {
+			os.Exit(2)
+		}
+		r := report.New(*prop, "selftest", seed)
+		func() {
+			defer func() {
+				if e := recover(); e != nil {
+					// an anchor that no longer resolves under the variant counts as a detection by exit status 2
+					r.Undecided("anchor", "unresolved", "-", fmt.Sprint(e))
+				}
+			}()
+			fn(p, r)
+		}()
+		known, _ := report.LoadKnown(filepath.Join(*verif, "known_findings.json"))
+		newKeys := r.NewFailures(known)
+		res.Status = "missed"
+		var globs []string
+		if res.Expected != "" {
+			globs = strings.Split(res.Expected, " || ")
+		}
+		for _, k := range newKeys {
+			if len(globs) == 0 {
+				res.Status = "detected"
+			}
+			for _, g := range globs {
+				if ir.Match(g, k) {
+					res.Status = "detected"
+				}
+			}
+		}
+		res.Detected = res.Status == "detected"
+		sort.Strings(newKeys)
+		if len(newKeys) > 6 {
+			newKeys = append(newKeys[:6], fmt.Sprintf("… %d more", len(newKeys)-6))
+		}
+		res.Note = "new failures: " + strings.Join(newKeys, " ; ")
+		emitSelftest(res, *selfOut)
+		return
+	}
+
 	p, err := ir.Load(cfg)
 	if err != nil {
 		fmt.Fprintln(os.Stderr, "lkcheck: load failed:", err)
@@ -88,10 +183,42 @@ func main() {
 		fmt.Fprintln(os.Stderr, "lkcheck: known findings:", err)
 		os.Exit(2)
 	}
+	if *selfIn != "" {
+		if f, err := os.Open(*selfIn); err == nil {
+			sc := bufio.NewScanner(f)
+			sc.Buffer(make([]byte, 1<<20), 1<<20)
+			for sc.Scan() {
+				var sr report.SelftestResult
+				if json.Unmarshal(sc.Bytes(), &sr) == nil && sr.Variant != "" {
+					r.Selftest = append(r.Selftest, sr)
+				}
+			}
+			f.Close()
+			sort.Slice(r.Selftest, func(i, j int) bool { return r.Selftest[i].Variant < r.Selftest[j].Variant })
+		}
+	}
 	if *noEvidence {
 		for _, o := range r.Obls {
 			fmt.Printf("%-11s %s  %s  %s\n", o.Status, o.Key, o.Pos, o.Detail)
 		}
 	}
 	os.Exit(r.Finish(*verif, known))
+}
+
+func short(s string, n int) string {
+	if len(s) > n {
+		return s[:n] + "…"
+	}
+	return s
+}
+
+func emitSelftest(res report.SelftestResult, out string) {
+	b, _ := json.Marshal(res)
+	fmt.Printf("SELFTEST %s\n", b)
+	if out != "" {
+		if f, err := os.OpenFile(out, os.O_APPEND|os.O_CREATE|os.O_WRONLY, 0o644); err == nil {
+			f.Write(append(b, '\n'))
+			f.Close()
+		}
+	}
 }
